@@ -2,14 +2,15 @@
 C19 — Rendering is a pure function of its inputs.  Property theorems only (helper lemmas are `private`).
 
 Sections
-  1 zoom_linear     every coordinate of `generate_pdf` is `zoom ×` its value at zoom 1 (BleedBox: while the 10 pt
-                    cap is not reached — `Witness.C19.bleedbox_cap_not_linear`), the page rectangle ignores zoom
+  1 zoom_linear     every coordinate of `generate_pdf` (BleedBox included since d924a7c) is `zoom ×` its value at
+                    zoom 1 for zoom > 0, the page rectangle ignores zoom
   2 copy_pages      `Document.copy(pages)` + `resolve_links` + the page loop write exactly the selected pages (every
                     variant, every selection)
   3 three_sinks     the three targets of `write_pdf` get one `pdf.write` with identical arguments
   5 fresh_state     successive renders share no object the caller did not hand in; generated module-state whitelist
-  4 cache_transparent  a shared image cache returns the cold value (fixed options, deterministic fetcher); the key
-                    `f'{url} {orientation}'` is injective and never collides with a `LazyImage` data key
+  4 cache_transparent  a shared image cache returns the cold value (deterministic fetcher; options may change from
+                    call to call since bca20a5); the key `f'{url} {orientation} {optimize} {quality} {dpi}'` is
+                    injective and never collides with a `LazyImage` data key
 (section 4 comes last in the file.)
 -/
 import WpModel.Model.PdfZoom
@@ -98,54 +99,75 @@ theorem dests_zoom (z : Rat) (p : Page) (i : Nat) (as : List Anchor) :
   simp only [Function.comp, transformPoint_pageMatrix, scaleDest, scale, Dest.mk.injEq, true_and]
   constructor <;> ring
 
-/-- The uncapped BleedBox offsets. -/
-def capFree (s : Rat) (p : Page) : Prop :=
-  p.bleed.left * s < 10 ∧ p.bleed.top * s < 10 ∧ p.bleed.right * s < 10 ∧ p.bleed.bottom * s < 10
+/-- No BleedBox offset reaches the cap (`10 * zoom` points). -/
+def capFree (z : Rat) (p : Page) : Prop :=
+  p.bleed.left * scale z < 10 * z ∧ p.bleed.top * scale z < 10 * z ∧ p.bleed.right * scale z < 10 * z ∧
+    p.bleed.bottom * scale z < 10 * z
 
-instance (s : Rat) (p : Page) : Decidable (capFree s p) := by unfold capFree; infer_instance
+instance (z : Rat) (p : Page) : Decidable (capFree z p) := by unfold capFree; infer_instance
 
-/-- BleedBox = MediaBox whenever no offset reaches the 10 pt cap. -/
-theorem bleedBox_eq_media_of_capFree (s : Rat) (p : Page) (h : capFree s p) : bleedBox s p = mediaBox s p := by
+/-- BleedBox = MediaBox whenever no offset reaches the cap. -/
+theorem bleedBox_eq_media_of_capFree (z : Rat) (p : Page) (h : capFree z p) : bleedBox z p = mediaBox (scale z) p := by
   obtain ⟨h1, h2, h3, h4⟩ := h
-  simp only [bleedBox, trimBox, min10, h1, h2, h3, h4, if_true, mediaBox, Box4.mk.injEq]
+  simp only [bleedBox, trimBox, minCap, h1, h2, h3, h4, if_true, mediaBox, Box4.mk.injEq]
   refine ⟨?_, ?_, ?_, ?_⟩ <;> ring
 
-/-- `zoom_linear` for BleedBox.  Full statement (false: `Witness.C19.bleedbox_cap_not_linear`):
-`∀ z p, bleedBox (scale z) p = scaleBox z (bleedBox (scale 1) p)`.  Proved when no offset reaches the cap at either
-zoom. -/
-theorem bleedBox_zoom_partial (z : Rat) (p : Page) (h1 : capFree (scale 1) p) (hz : capFree (scale z) p) :
-    bleedBox (scale z) p = scaleBox z (bleedBox (scale 1) p) := by
-  rw [bleedBox_eq_media_of_capFree _ _ h1, bleedBox_eq_media_of_capFree _ _ hz, mediaBox_zoom]
+/-- `min(10 * zoom, zoom * x) = zoom * min(10, x)` for zoom ≥ 0 (the repair d924a7c: the cap is scaled like the bleed). -/
+theorem minCap_zoom (z x : Rat) (hz : 0 ≤ z) : minCap z (z * x) = z * minCap 1 x := by
+  unfold minCap
+  rcases Rat.le_iff_lt_or_eq.mp hz with hpos | h0
+  · by_cases hx : x < 10 * 1
+    · have : z * x < 10 * z := by nlinarith
+      rw [if_pos this, if_pos hx]
+    · have : ¬ z * x < 10 * z := by
+        intro h; apply hx; nlinarith
+      rw [if_neg this, if_neg hx]; ring
+  · subst h0; simp
 
-private theorem min10_le (x : Rat) : min10 x ≤ 10 := by
-  unfold min10; split <;> linarith
+/-- **BleedBox is zoom-linear** (full strength for every zoom ≥ 0 since d924a7c; was `bleedBox_zoom_partial`, under the
+hypothesis that the 10 pt cap is not reached — known finding `bleedbox-cap-not-zoomed`, now fixed). -/
+theorem bleedBox_zoom (z : Rat) (hz : 0 ≤ z) (p : Page) : bleedBox z p = scaleBox z (bleedBox 1 p) := by
+  have e : ∀ b : Rat, b * scale z = z * (b * scale 1) := by intro b; unfold scale; ring
+  simp only [bleedBox, trimBox_eq, e, minCap_zoom _ _ hz, scaleBox, Box4.mk.injEq]
+  refine ⟨?_, ?_, ?_, ?_⟩ <;> (unfold scale; ring)
 
-private theorem min10_le_self (x : Rat) : min10 x ≤ x := by
-  unfold min10; split <;> linarith
+/-- The hypothesis `0 ≤ zoom` of `bleedBox_zoom` is necessary: at a negative zoom `min` picks the other argument
+(`min(10z, bz) = z·max(10, b)`).  Not a finding: the property quantifies over zoom in (0.1 .. 10). -/
+theorem bleedBox_negative_zoom_not_linear :
+    bleedBox (-1) ⟨100, 100, ⟨20, 20, 20, 20⟩, [], [], []⟩ ≠
+      scaleBox (-1) (bleedBox 1 ⟨100, 100, ⟨20, 20, 20, 20⟩, [], [], []⟩) := by
+  decide +kernel
 
-private theorem min10_nonneg (x : Rat) (h : 0 ≤ x) : 0 ≤ min10 x := by
-  unfold min10; split <;> linarith
+private theorem minCap_le (z x : Rat) : minCap z x ≤ 10 * z := by
+  unfold minCap; split <;> linarith
 
-/-- What does hold at every zoom: for non-negative bleeds and scale, TrimBox ⊆ BleedBox ⊆ MediaBox, and the
-BleedBox is at most 10 pt away from the TrimBox. -/
-theorem bleedBox_between (s : Rat) (p : Page) (hs : 0 ≤ s) (hl : 0 ≤ p.bleed.left) (ht : 0 ≤ p.bleed.top)
+private theorem minCap_le_self (z x : Rat) : minCap z x ≤ x := by
+  unfold minCap; split <;> linarith
+
+private theorem minCap_nonneg (z x : Rat) (hz : 0 ≤ z) (h : 0 ≤ x) : 0 ≤ minCap z x := by
+  unfold minCap; split <;> linarith
+
+/-- At every zoom ≥ 0, for non-negative bleeds: TrimBox ⊆ BleedBox ⊆ MediaBox, and the BleedBox is at most
+`10 × zoom` points away from the TrimBox. -/
+theorem bleedBox_between (z : Rat) (p : Page) (hz : 0 ≤ z) (hl : 0 ≤ p.bleed.left) (ht : 0 ≤ p.bleed.top)
     (hr : 0 ≤ p.bleed.right) (hb : 0 ≤ p.bleed.bottom) :
-    let m := mediaBox s p; let t := trimBox s p; let b := bleedBox s p
+    let m := mediaBox (scale z) p; let t := trimBox (scale z) p; let b := bleedBox z p
     m.x1 ≤ b.x1 ∧ b.x1 ≤ t.x1 ∧ m.y1 ≤ b.y1 ∧ b.y1 ≤ t.y1 ∧
     t.x2 ≤ b.x2 ∧ b.x2 ≤ m.x2 ∧ t.y2 ≤ b.y2 ∧ b.y2 ≤ m.y2 ∧
-    t.x1 - b.x1 ≤ 10 ∧ t.y1 - b.y1 ≤ 10 ∧ b.x2 - t.x2 ≤ 10 ∧ b.y2 - t.y2 ≤ 10 := by
-  have e1 := min10_le_self (p.bleed.left * s)
-  have e2 := min10_le_self (p.bleed.top * s)
-  have e3 := min10_le_self (p.bleed.right * s)
-  have e4 := min10_le_self (p.bleed.bottom * s)
-  have n1 := min10_nonneg _ (Rat.mul_nonneg hl hs)
-  have n2 := min10_nonneg _ (Rat.mul_nonneg ht hs)
-  have n3 := min10_nonneg _ (Rat.mul_nonneg hr hs)
-  have n4 := min10_nonneg _ (Rat.mul_nonneg hb hs)
-  have c1 := min10_le (p.bleed.left * s)
-  have c2 := min10_le (p.bleed.top * s)
-  have c3 := min10_le (p.bleed.right * s)
-  have c4 := min10_le (p.bleed.bottom * s)
+    t.x1 - b.x1 ≤ 10 * z ∧ t.y1 - b.y1 ≤ 10 * z ∧ b.x2 - t.x2 ≤ 10 * z ∧ b.y2 - t.y2 ≤ 10 * z := by
+  have hs : 0 ≤ scale z := by unfold scale; nlinarith
+  have e1 := minCap_le_self z (p.bleed.left * scale z)
+  have e2 := minCap_le_self z (p.bleed.top * scale z)
+  have e3 := minCap_le_self z (p.bleed.right * scale z)
+  have e4 := minCap_le_self z (p.bleed.bottom * scale z)
+  have n1 := minCap_nonneg z _ hz (Rat.mul_nonneg hl hs)
+  have n2 := minCap_nonneg z _ hz (Rat.mul_nonneg ht hs)
+  have n3 := minCap_nonneg z _ hz (Rat.mul_nonneg hr hs)
+  have n4 := minCap_nonneg z _ hz (Rat.mul_nonneg hb hs)
+  have c1 := minCap_le z (p.bleed.left * scale z)
+  have c2 := minCap_le z (p.bleed.top * scale z)
+  have c3 := minCap_le z (p.bleed.right * scale z)
+  have c4 := minCap_le z (p.bleed.bottom * scale z)
   simp only [bleedBox, trimBox, mediaBox]
   refine ⟨?_, ?_, ?_, ?_, ?_, ?_, ?_, ?_, ?_, ?_, ?_, ?_⟩ <;> linarith
 
@@ -205,30 +227,31 @@ theorem docOutlines_zoom (z : Rat) (i : Nat) (st : BmState) (ps : List Page) :
       | error e => rfl
       | ok out' => simp [Except.map]
 
-/-- Drop the one quantity that is capped in points: the BleedBox is replaced by the TrimBox. -/
+/-- Drop the one quantity whose formula contains a `min`: the BleedBox is replaced by the TrimBox (only needed for
+negative zooms). -/
 def noBleed (p : PagePdf) : PagePdf := { p with bleed := p.trim }
 
 def eraseBleed (o : PdfOut) : PdfOut := { o with pages := o.pages.map noBleed }
 
 private theorem pagePdf_zoom_noBleed (z : Rat) (hz : z ≠ 0) (p : Page) (links : List Link) :
-    noBleed (pagePdf (scale z) p links) = scalePage z (noBleed (pagePdf (scale 1) p links)) := by
+    noBleed (pagePdf z p links) = scalePage z (noBleed (pagePdf 1 p links)) := by
   have h1 : scale 1 ≠ 0 := scale_ne_zero (by decide +kernel)
   simp only [noBleed, pagePdf, scalePage, mediaBox_zoom z, trimBox_zoom z, annots_zoom z,
     pageRectangle_zoom_invariant _ (scale_ne_zero hz), pageRectangle_zoom_invariant _ h1, PagePdf.mk.injEq,
     true_and, and_true]
   constructor <;> (unfold scale; ring)
 
-private theorem pagePdf_zoom_capFree (z : Rat) (hz : z ≠ 0) (p : Page) (links : List Link)
-    (h1 : capFree (scale 1) p) (hc : capFree (scale z) p) :
-    pagePdf (scale z) p links = scalePage z (pagePdf (scale 1) p links) := by
+private theorem pagePdf_zoom (z : Rat) (hz : 0 < z) (p : Page) (links : List Link) :
+    pagePdf z p links = scalePage z (pagePdf 1 p links) := by
   have h0 : scale 1 ≠ 0 := scale_ne_zero (by decide +kernel)
-  simp only [pagePdf, scalePage, mediaBox_zoom z, trimBox_zoom z, annots_zoom z, bleedBox_zoom_partial z p h1 hc,
-    pageRectangle_zoom_invariant _ (scale_ne_zero hz), pageRectangle_zoom_invariant _ h0, PagePdf.mk.injEq,
+  have hne : z ≠ 0 := fun h => by subst h; exact absurd hz (by decide +kernel)
+  simp only [pagePdf, scalePage, mediaBox_zoom z, trimBox_zoom z, annots_zoom z, bleedBox_zoom z (Rat.le_of_lt hz) p,
+    pageRectangle_zoom_invariant _ (scale_ne_zero hne), pageRectangle_zoom_invariant _ h0, PagePdf.mk.injEq,
     true_and, and_true]
   constructor <;> (unfold scale; ring)
 
 private theorem pagesPdf_zoom_noBleed (z : Rat) (hz : z ≠ 0) (ps : List Page) (las : List (List Link × List Anchor)) :
-    (pagesPdf (scale z) ps las).map noBleed = ((pagesPdf (scale 1) ps las).map noBleed).map (scalePage z) := by
+    (pagesPdf z ps las).map noBleed = ((pagesPdf 1 ps las).map noBleed).map (scalePage z) := by
   induction ps generalizing las with
   | nil => simp [pagesPdf]
   | cons p rest ih =>
@@ -238,9 +261,8 @@ private theorem pagesPdf_zoom_noBleed (z : Rat) (hz : z ≠ 0) (ps : List Page) 
       simp only [pagesPdf, List.map_cons, List.cons.injEq]
       exact ⟨pagePdf_zoom_noBleed z hz p la.1, ih las⟩
 
-private theorem pagesPdf_zoom_capFree (z : Rat) (hz : z ≠ 0) (ps : List Page) (las : List (List Link × List Anchor))
-    (hc : ∀ p ∈ ps, capFree (scale 1) p ∧ capFree (scale z) p) :
-    pagesPdf (scale z) ps las = (pagesPdf (scale 1) ps las).map (scalePage z) := by
+private theorem pagesPdf_zoom (z : Rat) (hz : 0 < z) (ps : List Page) (las : List (List Link × List Anchor)) :
+    pagesPdf z ps las = (pagesPdf 1 ps las).map (scalePage z) := by
   induction ps generalizing las with
   | nil => simp [pagesPdf]
   | cons p rest ih =>
@@ -248,9 +270,7 @@ private theorem pagesPdf_zoom_capFree (z : Rat) (hz : z ≠ 0) (ps : List Page) 
     | nil => simp [pagesPdf]
     | cons la las =>
       simp only [pagesPdf, List.map_cons, List.cons.injEq]
-      refine ⟨pagePdf_zoom_capFree z hz p la.1 (hc p (by simp)).1 (hc p (by simp)).2, ih las ?_⟩
-      intro q hq
-      exact hc q (by simp [hq])
+      exact ⟨pagePdf_zoom z hz p la.1, ih las⟩
 
 private theorem allDests_zoom (z : Rat) (i : Nat) (ps : List Page) (las : List (List Link × List Anchor)) :
     allDests (scale z) i ps las = (allDests (scale 1) i ps las).map (scaleDest z) := by
@@ -269,12 +289,33 @@ private theorem sortDests_scale (z : Rat) (ds : List Dest) :
   intro a _ b _
   rfl
 
-/-- **zoom_linear** (everything but the BleedBox, full strength): for every zoom ≠ 0, document, selection and variant,
-`generate_pdf` at `zoom` fails exactly when it fails at zoom 1, and otherwise every MediaBox, TrimBox, page-flip and
-paint matrix entry, link rectangle, named destination and outline point is `zoom ×` its value at zoom 1, while page
-count, link targets, destination names and pages, outline labels / depths / states and the page rectangle are
-unchanged.  Layout is not an input of the scaling: `scaleOut` only multiplies. -/
-theorem zoom_linear (z : Rat) (hz : z ≠ 0) (ua : Bool) (d : Document) :
+/-- **zoom_linear** (full strength since the repair d924a7c of `bleedbox-cap-not-zoomed`; was `zoom_linear_partial`
+with the hypothesis that no bleed offset reaches the 10 pt cap): for every zoom > 0, document, selection and variant,
+`generate_pdf` at `zoom` fails exactly when it fails at zoom 1, and otherwise **every** layout-derived number —
+MediaBox, TrimBox, BleedBox, page-flip and paint matrix entries, link rectangles, named destinations, outline points —
+is `zoom ×` its value at zoom 1, while page count, link targets, destination names, pages and order, outline labels /
+depths / states and the page rectangle are unchanged.  Layout is not an input of the scaling: `scaleOut` only
+multiplies. -/
+theorem zoom_linear (z : Rat) (hz : 0 < z) (ua : Bool) (d : Document) :
+    generatePdf z ua d = (generatePdf 1 ua d).map (scaleOut z) := by
+  have h1 : (1 : Rat) ≠ 0 := by decide +kernel
+  have hne : z ≠ 0 := fun h => by subst h; exact absurd hz (by decide +kernel)
+  unfold generatePdf
+  simp only [scale_eq_zero_iff, hne, h1, false_and, if_false]
+  rw [docOutlines_zoom z]
+  cases h : docOutlines (scale 1) 0 ⟨[], 0⟩ d.pages with
+  | error e => rfl
+  | ok outlines =>
+    simp only [Except.map]
+    by_cases c2 : ua = true ∧ d.hasHtml = false ∧ d.pages ≠ []
+    · simp only [if_pos c2]
+    · · simp only [if_neg c2, scaleOut, Except.ok.injEq, PdfOut.mk.injEq, and_true]
+        refine ⟨pagesPdf_zoom z hz d.pages _, ?_⟩
+        rw [allDests_zoom z, sortDests_scale]
+
+/-- The same for every zoom ≠ 0 (negative ones included), for everything but the BleedBox
+(`bleedBox_negative_zoom_not_linear`). -/
+theorem zoom_linear_any_sign (z : Rat) (hz : z ≠ 0) (ua : Bool) (d : Document) :
     (generatePdf z ua d).map eraseBleed = (generatePdf 1 ua d).map (fun o => scaleOut z (eraseBleed o)) := by
   have h1 : (1 : Rat) ≠ 0 := by decide +kernel
   unfold generatePdf
@@ -293,43 +334,26 @@ theorem zoom_linear (z : Rat) (hz : z ≠ 0) (ua : Bool) (d : Document) :
           simpa [List.map_map] using this
         · rw [allDests_zoom z, sortDests_scale]
 
-/-- **zoom_linear** including the BleedBox.  Full statement (false because of the 10 pt cap,
-`Witness.C19.bleedbox_cap_not_linear`): the same without `hcap`.  Proved when no bleed offset reaches the cap at
-zoom 1 or at `zoom`. -/
-theorem zoom_linear_partial (z : Rat) (hz : z ≠ 0) (ua : Bool) (d : Document)
-    (hcap : ∀ p ∈ d.pages, capFree (scale 1) p ∧ capFree (scale z) p) :
-    generatePdf z ua d = (generatePdf 1 ua d).map (scaleOut z) := by
-  have h1 : (1 : Rat) ≠ 0 := by decide +kernel
-  unfold generatePdf
-  simp only [scale_eq_zero_iff, hz, h1, false_and, if_false]
-  rw [docOutlines_zoom z]
-  cases h : docOutlines (scale 1) 0 ⟨[], 0⟩ d.pages with
-  | error e => rfl
-  | ok outlines =>
-    simp only [Except.map]
-    by_cases c2 : ua = true ∧ d.hasHtml = false ∧ d.pages ≠ []
-    · simp only [if_pos c2]
-    · · simp only [if_neg c2, scaleOut, Except.ok.injEq, PdfOut.mk.injEq, and_true]
-        refine ⟨pagesPdf_zoom_capFree z hz d.pages _ hcap, ?_⟩
-        rw [allDests_zoom z, sortDests_scale]
-
 /-- Zoom 0 is the only zoom at which `generate_pdf` fails on a document that zoom 1 accepts. -/
 theorem zoom_zero_fails (ua : Bool) (d : Document) (h : d.pages ≠ []) :
     generatePdf 0 ua d = .error (.zeroDivision "generate_pdf.page_rectangle") := by
   unfold generatePdf
   simp [scale, h]
 
-/-- A document on which the hypotheses of `zoom_linear_partial` hold and `generate_pdf` succeeds. -/
+/-- A document on which `generate_pdf` succeeds, with bleeds below (4, 2, 1, 3 px) the cap. -/
 def exampleDoc : Document :=
   ⟨[⟨100, 80, ⟨4, 2, 1, 3⟩, [⟨.internal, "a", ⟨10, 20, 30, 40⟩⟩], [⟨"a", 10, 10⟩], [⟨1, "t", 10, 10, false⟩]⟩],
    1, 2, 3, true⟩
 
-example : (2 : Rat) ≠ 0 ∧ (∀ p ∈ exampleDoc.pages, capFree (scale 1) p ∧ capFree (scale 2) p) := by
-  refine ⟨by norm_num, ?_⟩
-  intro p hp
-  simp only [exampleDoc, List.mem_singleton] at hp
-  subst hp
-  norm_num [capFree, scale]
+/-- … and one whose bleed (20 px = 15 pt at zoom 1, 30 pt at zoom 2) is beyond the cap at both zooms: the input of
+the former witness `bleedbox_cap_not_linear`. -/
+def cappedDoc : Document := ⟨[⟨100, 100, ⟨20, 20, 20, 20⟩, [], [], []⟩], 1, 2, 3, true⟩
+
+/-- Non-vacuity of `zoom_linear`: the statement at zoom 2 on both documents is about successful writes, and on
+`cappedDoc` the cap is active at both zooms (the case the old `_partial` theorem excluded). -/
+example : (0 : Rat) < 2 ∧ (generatePdf 2 false exampleDoc).toBool = true ∧ (generatePdf 2 true cappedDoc).toBool = true ∧
+    (∀ p ∈ cappedDoc.pages, ¬ capFree 1 p ∧ ¬ capFree 2 p) ∧ (∀ p ∈ exampleDoc.pages, capFree 1 p ∧ capFree 2 p) := by
+  decide +kernel
 
 
 /-! ### totality: for bookmark levels ≥ 1 (what `gather_anchors` produces) the asserts of `make_page_bookmark_tree`
@@ -422,7 +446,7 @@ theorem generatePdf_total (z : Rat) (hz : z ≠ 0) (d : Document)
     (hl : ∀ p ∈ d.pages, ∀ b ∈ p.bookmarks, 1 ≤ b.level) : ∃ o, generatePdf z false d = .ok o := by
   obtain ⟨out, h⟩ := docOutlines_ok (scale z) 0 ⟨[], 0⟩ d.pages (by simp [BmInv, sumL]) hl
   have hs : ¬ (scale z = 0 ∧ d.pages ≠ []) := fun c => scale_ne_zero hz c.1
-  refine ⟨⟨pagesPdf (scale z) d.pages (resolveLinks d.pages),
+  refine ⟨⟨pagesPdf z d.pages (resolveLinks d.pages),
     sortDests (allDests (scale z) 0 d.pages (resolveLinks d.pages)), out⟩, ?_⟩
   simp only [generatePdf, if_neg hs, h, Bool.false_eq_true, false_and, if_false]
 
@@ -622,10 +646,10 @@ theorem mem_anchorNames_kept (ps : List Page) (n : String) : n ∈ anchorNames p
 theorem keptNames_nodup (ps : List Page) : (keptNames [] ps).Nodup := (pagedAnchors_spec [] ps).2.2.1
 
 
-private theorem pagesPdf_geometry (s : Rat) (ps : List Page) (las : List (List Link × List Anchor))
+private theorem pagesPdf_geometry (z : Rat) (ps : List Page) (las : List (List Link × List Anchor))
     (h : las.length = ps.length) :
-    (pagesPdf s ps las).map (fun pp => (pp.media, pp.trim, pp.bleed, pp.flipF, pp.paintScale)) =
-      ps.map (fun p => (mediaBox s p, trimBox s p, bleedBox s p, p.height * s, s)) := by
+    (pagesPdf z ps las).map (fun pp => (pp.media, pp.trim, pp.bleed, pp.flipF, pp.paintScale)) =
+      ps.map (fun p => (mediaBox (scale z) p, trimBox (scale z) p, bleedBox z p, p.height * scale z, scale z)) := by
   induction ps generalizing las with
   | nil => cases las <;> simp [pagesPdf]
   | cons p rest ih =>
@@ -635,9 +659,9 @@ private theorem pagesPdf_geometry (s : Rat) (ps : List Page) (las : List (List L
       simp only [pagesPdf, List.map_cons, List.cons.injEq]
       exact ⟨rfl, ih las (by simpa using h)⟩
 
-private theorem pagesPdf_annots (s : Rat) (f : Page → List Link) (ps : List Page)
+private theorem pagesPdf_annots (z : Rat) (f : Page → List Link) (ps : List Page)
     (las : List (List Link × List Anchor)) (h : las.map (·.1) = ps.map f) :
-    (pagesPdf s ps las).map (·.annots) = ps.map (fun p => annots (pageMatrix s p) (f p)) := by
+    (pagesPdf z ps las).map (·.annots) = ps.map (fun p => annots (pageMatrix (scale z) p) (f p)) := by
   induction ps generalizing las with
   | nil => cases las <;> simp [pagesPdf]
   | cons p rest ih =>
@@ -696,7 +720,7 @@ that page has in any document, its own links minus internal links to names not a
 first-occurrence destinations. -/
 theorem generatePdf_spec (z : Rat) (ua : Bool) (d : Document) (o : PdfOut) (h : generatePdf z ua d = .ok o) :
     o.pages.map (fun pp => (pp.media, pp.trim, pp.bleed, pp.flipF, pp.paintScale)) =
-      d.pages.map (fun p => (mediaBox (scale z) p, trimBox (scale z) p, bleedBox (scale z) p,
+      d.pages.map (fun p => (mediaBox (scale z) p, trimBox (scale z) p, bleedBox z p,
         p.height * scale z, scale z)) ∧
     o.pages.map (·.annots) =
       d.pages.map (fun p => annots (pageMatrix (scale z) p) (p.links.filter (keepLink (anchorNames d.pages)))) ∧
@@ -723,12 +747,12 @@ theorem generatePdf_spec (z : Rat) (ua : Bool) (d : Document) (o : PdfOut) (h : 
           n ∈ anchorNames ps := by
         intro n
         rw [hnames.mem_iff, mem_anchorNames_kept]
-      have hann := pagesPdf_annots (scale z) (fun p => p.links.filter (keepLink (anchorNames ps))) ps
+      have hann := pagesPdf_annots z (fun p => p.links.filter (keepLink (anchorNames ps))) ps
         (resolveLinks ps) (resolveLinks_links ps)
       refine ⟨pagesPdf_geometry _ _ _ hlen, hann, ?_, ?_, ?_, ?_⟩
       · intro pp hpp a ha hk
         rw [hmem]
-        have : pp.annots ∈ (pagesPdf (scale z) ps (resolveLinks ps)).map (·.annots) :=
+        have : pp.annots ∈ (pagesPdf z ps (resolveLinks ps)).map (·.annots) :=
           List.mem_map.mpr ⟨pp, hpp, rfl⟩
         rw [hann] at this
         obtain ⟨p, _, hp⟩ := List.mem_map.mp this
@@ -755,7 +779,7 @@ Whenever `generate_pdf` succeeds on `document.copy(ps)`:
 theorem copy_pages (z : Rat) (ua : Bool) (d : Document) (ps : List Page) (o : PdfOut)
     (h : generatePdf z ua (copy d (.pages ps)) = .ok o) :
     o.pages.map (fun pp => (pp.media, pp.trim, pp.bleed, pp.flipF, pp.paintScale)) =
-      ps.map (fun p => (mediaBox (scale z) p, trimBox (scale z) p, bleedBox (scale z) p,
+      ps.map (fun p => (mediaBox (scale z) p, trimBox (scale z) p, bleedBox z p,
         p.height * scale z, scale z)) ∧
     o.pages.map (·.annots) =
       ps.map (fun p => annots (pageMatrix (scale z) p) (p.links.filter (keepLink (anchorNames ps)))) ∧
@@ -794,7 +818,7 @@ theorem generatePdf_pdfua_total (z : Rat) (hz : z ≠ 0) (d : Document)
     rcases hh with hh | hh
     · rw [hh] at h1; cases h1
     · exact h2 hh
-  refine ⟨⟨pagesPdf (scale z) d.pages (resolveLinks d.pages),
+  refine ⟨⟨pagesPdf z d.pages (resolveLinks d.pages),
     sortDests (allDests (scale z) 0 d.pages (resolveLinks d.pages)), out⟩, ?_⟩
   simp only [generatePdf, if_neg hs, h]
   exact if_neg hc
@@ -1186,13 +1210,100 @@ private theorem append_cons_lt {α : Type} (a b s t : List α) (x : α) (h : a +
       simp only [List.cons_append, List.cons.injEq] at hc
       exact ⟨c', hc.2.symm⟩
 
-/-- The cache key `f'{url} {orientation}'` determines the URL and the orientation: two different requests never
-share a key (F18 repaired; the orientation strings contain no `' ' + another orientation string` as a suffix). -/
-theorem key_injective (u1 u2 : String) (o1 o2 : Orientation) (h : keyStr u1 o1 = keyStr u2 o2) :
-    u1 = u2 ∧ o1 = o2 := by
-  have hl : u1.toList ++ ' ' :: o1.render.toList = u2.toList ++ ' ' :: o2.render.toList := by
-    have := congrArg String.toList h
-    simpa [keyStr, String.toList_append] using this
+/-- Splitting a list at its last separator: if the tails contain no separator-like element (`P` holds on them, not on
+the separators), equal lists split equally. -/
+private theorem split_last {α : Type} (P : α → Prop) (a1 a2 t1 t2 : List α) (x y : α)
+    (h1 : ∀ c ∈ t1, P c) (h2 : ∀ c ∈ t2, P c) (hx : ¬ P x) (hy : ¬ P y)
+    (h : a1 ++ x :: t1 = a2 ++ y :: t2) : a1 = a2 ∧ x = y ∧ t1 = t2 := by
+  rcases List.append_eq_append_iff.mp h with ⟨c, hc1, hc2⟩ | ⟨c, hc1, hc2⟩
+  · cases c with
+    | nil =>
+      simp only [List.append_nil] at hc1
+      simp only [List.nil_append, List.cons.injEq] at hc2
+      exact ⟨hc1.symm, hc2.1, hc2.2⟩
+    | cons w c' =>
+      simp only [List.cons_append, List.cons.injEq] at hc2
+      exact absurd (h1 y (by rw [hc2.2]; simp)) hy
+  · cases c with
+    | nil =>
+      simp only [List.append_nil] at hc1
+      simp only [List.nil_append, List.cons.injEq] at hc2
+      exact ⟨hc1, hc2.1.symm, hc2.2.symm⟩
+    | cons w c' =>
+      simp only [List.cons_append, List.cons.injEq] at hc2
+      exact absurd (h2 x (by rw [hc2.2]; simp)) hx
+
+private theorem digits_isDigit (n : Nat) : ∀ c ∈ (toString n).toList, c.isDigit = true := by
+  intro c hc
+  have : (toString n).toList = Nat.toDigits 10 n := Nat.toList_repr
+  rw [this] at hc
+  exact Nat.isDigit_of_mem_toDigits (by decide) (by decide) hc
+
+private theorem toString_nat_inj (n m : Nat) (h : (toString n).toList = (toString m).toList) : n = m := by
+  have e1 : (toString n).toList = Nat.toDigits 10 n := Nat.toList_repr
+  have e2 : (toString m).toList = Nat.toDigits 10 m := Nat.toList_repr
+  rw [e1, e2] at h
+  have := congrArg (fun l => Nat.ofDigitChars 10 l 0) h
+  simpa [Nat.ofDigitChars_ten_toDigits] using this
+
+/-- The characters of `str(None)` / `str(n)`: letters of `None` or digits. -/
+private theorem pyOptNat_chars (o : Option Nat) :
+    ∀ c ∈ (pyOptNat o).toList, c.isDigit = true ∨ c ∈ ['N', 'o', 'n', 'e'] := by
+  cases o with
+  | none => intro c hc; right; simpa [pyOptNat] using hc
+  | some n => intro c hc; left; exact digits_isDigit n c hc
+
+private theorem pyOptNat_no_space (o : Option Nat) : ∀ c ∈ (pyOptNat o).toList, c ≠ ' ' := by
+  intro c hc
+  rcases pyOptNat_chars o c hc with h | h
+  · intro e; subst e; revert h; decide
+  · intro e; subst e; revert h; decide
+
+private theorem pyBool_no_space (b : Bool) : ∀ c ∈ (pyBool b).toList, c ≠ ' ' := by
+  cases b <;> decide
+
+private theorem pyBool_inj (a b : Bool) (h : (pyBool a).toList = (pyBool b).toList) : a = b := by
+  cases a <;> cases b <;> first | rfl | (revert h; decide)
+
+private theorem pyOptNat_inj (a b : Option Nat) (h : (pyOptNat a).toList = (pyOptNat b).toList) : a = b := by
+  cases a with
+  | none =>
+    cases b with
+    | none => rfl
+    | some m =>
+      exfalso
+      have := digits_isDigit m 'N' (by rw [show (toString m).toList = (pyOptNat (some m)).toList from rfl, ← h]; decide)
+      revert this; decide
+  | some n =>
+    cases b with
+    | none =>
+      exfalso
+      have := digits_isDigit n 'N' (by rw [show (toString n).toList = (pyOptNat (some n)).toList from rfl, h]; decide)
+      revert this; decide
+    | some m => exact congrArg some (toString_nat_inj n m h)
+
+private theorem keyStr_toList (u : String) (o : Orientation) (opts : Opts) :
+    (keyStr u o opts).toList =
+      (((u.toList ++ ' ' :: o.render.toList) ++ ' ' :: (pyBool opts.optimize).toList) ++
+        ' ' :: (pyOptNat opts.jpegQuality).toList) ++ ' ' :: (pyOptNat opts.dpi).toList := by
+  simp [keyStr, String.toList_append]
+
+/-- The cache key `f'{url} {orientation} {optimize_images} {jpeg_quality} {dpi}'` determines the URL, the orientation
+and the three image options: two different requests never share a key — also for URLs that contain spaces (the three
+option tokens contain none; no orientation string has `' ' + another orientation string` as a suffix).  F18
+(`image-cache-ignores-orientation`) and `image-cache-ignores-options` repaired. -/
+theorem key_injective (u1 u2 : String) (o1 o2 : Orientation) (p1 p2 : Opts)
+    (h : keyStr u1 o1 p1 = keyStr u2 o2 p2) : u1 = u2 ∧ o1 = o2 ∧ p1 = p2 := by
+  have hl := congrArg String.toList h
+  rw [keyStr_toList, keyStr_toList] at hl
+  have ns : ¬ ((' ' : Char) ≠ ' ') := fun c => c rfl
+  obtain ⟨hl, _, hd⟩ := split_last (· ≠ ' ') _ _ _ _ ' ' ' ' (pyOptNat_no_space _) (pyOptNat_no_space _) ns ns hl
+  obtain ⟨hl, _, hq⟩ := split_last (· ≠ ' ') _ _ _ _ ' ' ' ' (pyOptNat_no_space _) (pyOptNat_no_space _) ns ns hl
+  obtain ⟨hl, _, hb⟩ := split_last (· ≠ ' ') _ _ _ _ ' ' ' ' (pyBool_no_space _) (pyBool_no_space _) ns ns hl
+  have hp : p1 = p2 := by
+    cases p1; cases p2
+    simp only [Opts.mk.injEq]
+    exact ⟨pyBool_inj _ _ hb, pyOptNat_inj _ _ hq, pyOptNat_inj _ _ hd⟩
   have m1 := mem_allOrientations o1
   have m2 := mem_allOrientations o2
   rcases Nat.lt_trichotomy o1.render.toList.length o2.render.toList.length with hlt | heq | hgt
@@ -1200,56 +1311,54 @@ theorem key_injective (u1 u2 : String) (o1 o2 : Orientation) (h : keyStr u1 o1 =
   · have hcons : (' ' :: o1.render.toList).length = (' ' :: o2.render.toList).length := by simp [heq]
     obtain ⟨ha, hb⟩ := List.append_inj' hl hcons
     simp only [List.cons.injEq, true_and] at hb
-    exact ⟨String.toList_inj.mp ha, render_injective o1 m1 o2 m2 hb⟩
+    exact ⟨String.toList_inj.mp ha, render_injective o1 m1 o2 m2 hb, hp⟩
   · exact absurd (append_cons_lt _ _ _ _ _ hl.symm hgt) (render_no_space_suffix o2 m2 o1 m1)
 
-private theorem keyStr_last (u : String) (o : Orientation) :
-    (keyStr u o).toList.getLast? = some 'e' ∨ (keyStr u o).toList.getLast? = some ')' := by
-  have h : (keyStr u o).toList = (u.toList ++ [' ']) ++ o.render.toList := by
-    simp [keyStr, String.toList_append]
-  rw [h, List.getLast?_append]
-  have hr : o.render.toList.getLast? = some 'e' ∨ o.render.toList.getLast? = some ')' := by
-    cases o with
-    | fromImage => left; decide
-    | none => left; decide
-    | angle q f => right; cases q <;> cases f <;> decide
-  rcases hr with hr | hr <;> rw [hr]
-  · left; rfl
-  · right; rfl
-
-private theorem dataKey_last (id : String) (dpi : Option Nat) :
-    ∃ c, (dataKey id dpi).toList.getLast? = some c ∧ (c = '-' ∨ c.isDigit = true) := by
-  have hnone : (dataKey id none).toList.getLast? = some '-' := by
-    simp [dataKey, String.toList_append, List.getLast?_append]
+/-- `str(dpi or '')`: nothing, or digits. -/
+private theorem dataKey_toList (id : String) (dpi : Option Nat) :
+    ∃ ds : List Char, (dataKey id dpi).toList = (id.toList ++ "-source".toList) ++ '-' :: ds ∧
+      ∀ c ∈ ds, c.isDigit = true := by
   cases dpi with
-  | none => exact ⟨'-', hnone, Or.inl rfl⟩
+  | none => exact ⟨[], by simp [dataKey, String.toList_append], by simp⟩
   | some n =>
     by_cases hn : n = 0
-    · subst hn
-      refine ⟨'-', ?_, Or.inl rfl⟩
-      simp [dataKey, String.toList_append, List.getLast?_append]
-    · have hne : Nat.toDigits 10 n ≠ [] := Nat.toDigits_ne_nil
-      obtain ⟨c, hc⟩ : ∃ c, (Nat.toDigits 10 n).getLast? = some c := by
-        cases hl : (Nat.toDigits 10 n).getLast? with
-        | none => exact absurd (List.getLast?_eq_none_iff.mp hl) hne
-        | some c => exact ⟨c, rfl⟩
-      refine ⟨c, ?_, Or.inr ?_⟩
-      · obtain ⟨d, ds, hds⟩ : ∃ d ds, Nat.toDigits 10 n = d :: ds := by
-          cases hl : Nat.toDigits 10 n with
-          | nil => exact absurd hl hne
-          | cons d ds => exact ⟨d, ds, rfl⟩
-        rw [hds] at hc
-        simp [dataKey, hn, String.toList_append, List.getLast?_append, hds, hc]
-      · exact Nat.isDigit_of_mem_toDigits (by decide) (by decide) (List.mem_of_getLast? hc)
+    · subst hn; exact ⟨[], by simp [dataKey, String.toList_append], by simp⟩
+    · exact ⟨(toString n).toList, by simp [dataKey, hn, String.toList_append], digits_isDigit n⟩
 
-/-- The keys under which `LazyImage` stores bytes never collide with an image key. -/
-theorem dataKey_ne_keyStr (id : String) (dpi : Option Nat) (u : String) (o : Orientation) :
-    dataKey id dpi ≠ keyStr u o := by
+/-- The keys under which `LazyImage` stores bytes never collide with an image key: after its last `-` a data key has
+digits only, an image key has a space there. -/
+theorem dataKey_ne_keyStr (id : String) (dpi : Option Nat) (u : String) (o : Orientation) (opts : Opts) :
+    dataKey id dpi ≠ keyStr u o opts := by
   intro h
-  obtain ⟨c, hc, hcd⟩ := dataKey_last id dpi
-  rw [h] at hc
-  rcases keyStr_last u o with hk | hk <;> rw [hk] at hc <;> cases hc <;> rcases hcd with hcd | hcd <;>
-    revert hcd <;> decide
+  obtain ⟨ds, hds, hdig⟩ := dataKey_toList id dpi
+  have hl := congrArg String.toList h
+  rw [hds, keyStr_toList] at hl
+  have P1 : ∀ c ∈ ds, (c ≠ '-' ∧ c ≠ ' ') := by
+    intro c hc
+    have := hdig c hc
+    constructor <;> (intro e; subst e; revert this; decide)
+  have P2 : ∀ c ∈ (pyOptNat opts.dpi).toList, (c ≠ '-' ∧ c ≠ ' ') := by
+    intro c hc
+    rcases pyOptNat_chars _ c hc with hh | hh <;> constructor <;> (intro e; subst e; revert hh; decide)
+  obtain ⟨_, hxy, _⟩ := split_last (fun c => c ≠ '-' ∧ c ≠ ' ') _ _ _ _ '-' ' ' P1 P2 (fun c => c.1 rfl)
+    (fun c => c.2 rfl) hl
+  revert hxy; decide
+
+/-- Two different image keys never share a `LazyImage` data key (`md5` symbolic, i.e. collision-free). -/
+theorem dataKey_injective (k1 k2 : String) (d1 d2 : Option Nat)
+    (h : dataKey (imageId k1) d1 = dataKey (imageId k2) d2) : k1 = k2 := by
+  obtain ⟨ds1, h1, g1⟩ := dataKey_toList (imageId k1) d1
+  obtain ⟨ds2, h2, g2⟩ := dataKey_toList (imageId k2) d2
+  have hl := congrArg String.toList h
+  rw [h1, h2] at hl
+  have nd : ∀ ds : List Char, (∀ c ∈ ds, c.isDigit = true) → ∀ c ∈ ds, c ≠ '-' := by
+    intro ds g c hc e; subst e; have := g _ hc; revert this; decide
+  obtain ⟨hp, _, _⟩ := split_last (· ≠ '-') _ _ _ _ '-' '-' (nd _ g1) (nd _ g2) (fun c => c rfl) (fun c => c rfl) hl
+  have hp := List.append_cancel_right hp
+  have e : ∀ k : String, (imageId k).toList = "md5(".toList ++ (k.toList ++ [')']) := by
+    intro k; simp [imageId, String.toList_append]
+  rw [e, e] at hp
+  exact String.toList_inj.mp (List.append_cancel_right (List.append_cancel_left hp))
 
 theorem lookup_insert_same (c : Cache) (k : String) (v : Entry) : lookup (insert c k v) k = some v := by
   induction c with
@@ -1312,52 +1421,54 @@ private theorem decode_value (opts : Opts) (c : Cache) (url key forced forced' :
     obtain ⟨m1, m2⟩ := makeRaster_value opts c key blob r file o
     exact ⟨congrArg some m1, m2⟩
 
-/-- Every image entry of the cache is the value a cold call returns for the request it is keyed by. -/
-def Consistent (f : Fetcher) (opts : Opts) (c : Cache) : Prop :=
-  ∀ url o e, lookup c (keyStr url o) = some e → ∀ forced, cold f opts ⟨url, forced, o⟩ = .ok e
+/-- Every image entry of the cache is the value a cold call returns for the request (URL, orientation, image options)
+it is keyed by. -/
+def Consistent (f : Fetcher) (c : Cache) : Prop :=
+  ∀ url o opts e, lookup c (keyStr url o opts) = some e → ∀ forced, cold f ⟨url, forced, o, opts⟩ = .ok e
 
-theorem consistent_empty (f : Fetcher) (opts : Opts) : Consistent f opts [] := by
-  intro url o e h; simp [lookup] at h
+theorem consistent_empty (f : Fetcher) : Consistent f [] := by
+  intro url o opts e h; simp [lookup] at h
 
-private theorem getImage_spec (f : Fetcher) (opts : Opts) (hx : Exclusive f) (c : Cache) (hc : Consistent f opts c)
-    (url forced : String) (o : Orientation) :
-    (getImage f opts c url forced o).value = cold f opts ⟨url, forced, o⟩ ∧
-    Consistent f opts (getImage f opts c url forced o).cache := by
-  cases hl : lookup c (keyStr url o) with
+private theorem getImage_spec (f : Fetcher) (hx : Exclusive f) (c : Cache) (hc : Consistent f c)
+    (url forced : String) (o : Orientation) (opts : Opts) :
+    (getImage f opts c url forced o).value = cold f ⟨url, forced, o, opts⟩ ∧
+    Consistent f (getImage f opts c url forced o).cache := by
+  cases hl : lookup c (keyStr url o opts) with
   | some e =>
     have hv : getImage f opts c url forced o = ⟨.ok e, c, []⟩ := by simp [getImage, hl]
     rw [hv]
-    exact ⟨(hc url o e hl forced).symm, hc⟩
+    exact ⟨(hc url o opts e hl forced).symm, hc⟩
   | none =>
-    have hcold : ∀ forced', cold f opts ⟨url, forced', o⟩ =
+    have hcold : ∀ forced', cold f ⟨url, forced', o, opts⟩ =
         (match f url with
           | .raises => .ok (.image none)
           | .malformed => .error (.indexError "KeyError:result['file_obj']")
-          | .ok mime file blob => .ok (.image (decode opts [] url (keyStr url o) forced' mime file blob o).1)) := by
+          | .ok mime file blob =>
+            .ok (.image (decode opts [] url (keyStr url o opts) forced' mime file blob o).1)) := by
       intro forced'
-      simp only [cold, getImage, lookup]
+      simp only [cold, coldResult, getImage, lookup]
       cases f url <;> rfl
     -- a new image entry `v` under this key, possibly after a bytes entry, keeps the cache consistent
     have hkeep : ∀ (c' : Cache) (v : Entry),
-        (c' = c ∨ ∃ p, c' = insert c (dataKey (imageId (keyStr url o)) opts.dpi) (.bytes p)) →
-        (∀ forced', cold f opts ⟨url, forced', o⟩ = .ok v) →
-        Consistent f opts (insert c' (keyStr url o) v) := by
-      intro c' v hc' hv url' o' e he forced'
-      by_cases hk : keyStr url o = keyStr url' o'
-      · obtain ⟨hu, ho⟩ := key_injective _ _ _ _ hk
-        subst hu; subst ho
+        (c' = c ∨ ∃ p, c' = insert c (dataKey (imageId (keyStr url o opts)) opts.dpi) (.bytes p)) →
+        (∀ forced', cold f ⟨url, forced', o, opts⟩ = .ok v) →
+        Consistent f (insert c' (keyStr url o opts) v) := by
+      intro c' v hc' hv url' o' opts' e he forced'
+      by_cases hk : keyStr url o opts = keyStr url' o' opts'
+      · obtain ⟨hu, ho, hp⟩ := key_injective _ _ _ _ _ _ hk
+        subst hu; subst ho; subst hp
         rw [lookup_insert_same] at he
         cases he
         exact hv forced'
       · rw [lookup_insert_ne _ _ _ _ hk] at he
         rcases hc' with rfl | ⟨p, rfl⟩
-        · exact hc url' o' e he forced'
-        · rw [lookup_insert_ne _ _ _ _ (dataKey_ne_keyStr _ _ _ _)] at he
-          exact hc url' o' e he forced'
+        · exact hc url' o' opts' e he forced'
+        · rw [lookup_insert_ne _ _ _ _ (dataKey_ne_keyStr _ _ _ _ _)] at he
+          exact hc url' o' opts' e he forced'
     cases hf : f url with
     | raises =>
       have hv : getImage f opts c url forced o =
-          ⟨.ok (.image none), insert c (keyStr url o) (.image none), [url]⟩ := by simp [getImage, hl, hf]
+          ⟨.ok (.image none), insert c (keyStr url o opts) (.image none), [url]⟩ := by simp [getImage, hl, hf]
       rw [hv]
       refine ⟨?_, hkeep c _ (Or.inl rfl) ?_⟩
       · rw [hcold, hf]
@@ -1371,48 +1482,50 @@ private theorem getImage_spec (f : Fetcher) (opts : Opts) (hx : Exclusive f) (c 
     | ok mime file blob =>
       have hxb := hx url mime file blob hf
       have hv : getImage f opts c url forced o =
-          ⟨.ok (.image (decode opts c url (keyStr url o) forced mime file blob o).1),
-           insert (decode opts c url (keyStr url o) forced mime file blob o).2 (keyStr url o)
-             (.image (decode opts c url (keyStr url o) forced mime file blob o).1), [url]⟩ := by
+          ⟨.ok (.image (decode opts c url (keyStr url o opts) forced mime file blob o).1),
+           insert (decode opts c url (keyStr url o opts) forced mime file blob o).2 (keyStr url o opts)
+             (.image (decode opts c url (keyStr url o opts) forced mime file blob o).1), [url]⟩ := by
         simp [getImage, hl, hf]
       rw [hv]
-      obtain ⟨d1, d2⟩ := decode_value opts c url (keyStr url o) forced forced mime file blob o hxb
+      obtain ⟨d1, d2⟩ := decode_value opts c url (keyStr url o opts) forced forced mime file blob o hxb
       refine ⟨?_, hkeep _ _ d2 ?_⟩
       · rw [hcold, hf, d1]
       · intro forced'
-        rw [hcold, hf, (decode_value opts c url (keyStr url o) forced forced' mime file blob o hxb).1]
+        rw [hcold, hf, (decode_value opts c url (keyStr url o opts) forced forced' mime file blob o hxb).1]
 
-/-- **cache_transparent** (full strength: any orientations, any forced MIME types): for every history of
-`get_image_from_uri` calls that share a cache which starts consistent (e.g. empty), with a deterministic fetcher and
-fixed image options, every call returns exactly what it would return on a cold cache — cached failures (`None`) and
-`KeyError`s included.  Hence a warm and a cold cache give the same images. -/
-theorem cache_transparent (f : Fetcher) (opts : Opts) (hx : Exclusive f) (c : Cache) (hc : Consistent f opts c)
-    (calls : List Call) : (runCalls f opts c calls).map (·.value) = calls.map (cold f opts) := by
+/-- **cache_transparent** (full strength since bca20a5: any orientations, any forced MIME types, and **image options
+that change from call to call** — a cache shared by renders with different `optimize_images` / `jpeg_quality` / `dpi`;
+it was stated for fixed options while the key ignored them, known finding `image-cache-ignores-options`): for every
+history of `get_image_from_uri` calls that share a cache which starts consistent (e.g. empty), with a deterministic
+fetcher, every call returns exactly what it would return on a cold cache — cached failures (`None`) and `KeyError`s
+included.  Hence a warm and a cold cache give the same images. -/
+theorem cache_transparent (f : Fetcher) (hx : Exclusive f) (c : Cache) (hc : Consistent f c)
+    (calls : List Call) : (runCalls f c calls).map (·.value) = calls.map (cold f) := by
   induction calls generalizing c with
   | nil => rfl
   | cons call rest ih =>
-    obtain ⟨h1, h2⟩ := getImage_spec f opts hx c hc call.url call.forced call.orientation
+    obtain ⟨h1, h2⟩ := getImage_spec f hx c hc call.url call.forced call.orientation call.opts
     simp only [runCalls, List.map_cons, List.cons.injEq]
     exact ⟨h1, ih _ h2⟩
 
 /-- A hit fetches nothing and leaves the cache as it is. -/
 theorem hit_no_fetch (f : Fetcher) (opts : Opts) (c : Cache) (url forced : String) (o : Orientation) (e : Entry)
-    (h : lookup c (keyStr url o) = some e) :
+    (h : lookup c (keyStr url o opts) = some e) :
     (getImage f opts c url forced o).fetched = [] ∧ (getImage f opts c url forced o).cache = c := by
   simp [getImage, h]
 
 /-- A miss calls the fetcher exactly once, with the URL asked for. -/
 theorem miss_fetches_once (f : Fetcher) (opts : Opts) (c : Cache) (url forced : String) (o : Orientation)
-    (h : lookup c (keyStr url o) = none) : (getImage f opts c url forced o).fetched = [url] := by
+    (h : lookup c (keyStr url o opts) = none) : (getImage f opts c url forced o).fetched = [url] := by
   simp only [getImage, h]
   cases f url <;> rfl
 
-/-- After a call that returned (did not raise), the same request is a hit: each `(url, orientation)` is fetched at
-most once per cache. -/
+/-- After a call that returned (did not raise), the same request is a hit: each `(url, orientation, options)` is
+fetched at most once per cache. -/
 theorem second_call_is_hit (f : Fetcher) (opts : Opts) (c : Cache) (url forced : String) (o : Orientation) (e : Entry)
     (h : (getImage f opts c url forced o).value = .ok e) :
-    lookup (getImage f opts c url forced o).cache (keyStr url o) = some e := by
-  cases hl : lookup c (keyStr url o) with
+    lookup (getImage f opts c url forced o).cache (keyStr url o opts) = some e := by
+  cases hl : lookup c (keyStr url o opts) with
   | some e' =>
     simp only [getImage, hl] at h ⊢
     cases h; rfl
@@ -1423,14 +1536,279 @@ theorem second_call_is_hit (f : Fetcher) (opts : Opts) (c : Cache) (url forced :
     | malformed => simp only [hf] at h; cases h
     | ok mime file blob => simp only [hf] at h ⊢; cases h; exact lookup_insert_same _ _ _
 
-/-- A fetcher / history on which the hypotheses hold and the cache is really used. -/
+/-! ### the bytes behind the images (what the former witness `cache_ignores_options` was about) -/
+
+/-- Under `Exclusive`, what `decode` returns and stores does not depend on the forced MIME type at all. -/
+private theorem decode_forced (opts : Opts) (c : Cache) (url key forced forced' : String) (mime : Option String)
+    (file : Option String) (blob : Blob) (o : Orientation)
+    (hx : ¬ (blob.svgOk = true ∧ blob.raster.isSome = true)) :
+    decode opts c url key forced mime file blob o = decode opts c url key forced' mime file blob o := by
+  unfold decode
+  cases hr : blob.raster with
+  | none =>
+    cases hs : blob.svgOk <;> simp only [Bool.false_eq_true, and_false, and_true, if_false] <;>
+      split_ifs <;> rfl
+  | some r =>
+    have hs : blob.svgOk = false := by
+      cases h : blob.svgOk with
+      | false => rfl
+      | true => exact absurd ⟨h, by simp [hr]⟩ hx
+    simp only [hs, Bool.false_eq_true, and_false, if_false]
+
+/-- The cache effect of `decode` is the same insertion (or none) whatever the cache it starts from. -/
+private theorem decode_cache_uniform (opts : Opts) (url key forced : String) (mime file : Option String)
+    (blob : Blob) (o : Orientation) :
+    (∀ c, (decode opts c url key forced mime file blob o).2 = c) ∨
+    (∃ p, ∀ c, (decode opts c url key forced mime file blob o).2 =
+      insert c (dataKey (imageId key) opts.dpi) (.bytes p)) := by
+  unfold decode
+  cases hr : blob.raster with
+  | none => left; intro c; simp only []; split_ifs <;> rfl
+  | some r =>
+    simp only []
+    by_cases h1 : (if forced ≠ "" then some forced else mime) = some svgMime ∧ blob.svgOk = true
+    · left; intro c; rw [if_pos h1]
+    · simp only [if_neg h1]
+      unfold makeRaster
+      simp only
+      split
+      · split
+        · left; intro c; rfl
+        · right; exact ⟨_, fun c => rfl⟩
+      · right; exact ⟨_, fun c => rfl⟩
+
+/-- Every image entry is the cold value for its request **and** the cache still holds every bytes entry the cold call
+stores for it (nothing another request did has replaced them). -/
+def PayloadConsistent (f : Fetcher) (c : Cache) : Prop :=
+  ∀ url o opts e, lookup c (keyStr url o opts) = some e → ∀ forced,
+    cold f ⟨url, forced, o, opts⟩ = .ok e ∧
+    ∀ dk p, lookup (coldResult f ⟨url, forced, o, opts⟩).cache dk = some (.bytes p) → lookup c dk = some (.bytes p)
+
+theorem payloadConsistent_empty (f : Fetcher) : PayloadConsistent f [] := by
+  intro url o opts e h; simp [lookup] at h
+
+/-- The only bytes entry a cold call stores sits under the data key of its own image key. -/
+private theorem cold_bytes_key (f : Fetcher) (call : Call) (dk : String) (p : Payload)
+    (h : lookup (coldResult f call).cache dk = some (.bytes p)) :
+    dk = dataKey (imageId (keyStr call.url call.orientation call.opts)) call.opts.dpi := by
+  obtain ⟨url, forced, o, opts⟩ := call
+  simp only [coldResult, getImage, lookup] at h
+  cases hf : f url with
+  | raises =>
+    simp only [hf, ImageCache.insert, lookup] at h
+    split at h <;> cases h
+  | malformed => simp [hf, lookup] at h
+  | ok mime file blob =>
+    simp only [hf] at h
+    by_cases hk : keyStr url o opts = dk
+    · subst hk; rw [lookup_insert_same] at h; cases h
+    · rw [lookup_insert_ne _ _ _ _ hk] at h
+      rcases decode_cache_uniform opts url (keyStr url o opts) forced mime file blob o with hu | ⟨q, hu⟩
+      · rw [hu] at h; simp [lookup] at h
+      · rw [hu] at h
+        by_cases hd : dataKey (imageId (keyStr url o opts)) opts.dpi = dk
+        · exact hd.symm
+        · rw [lookup_insert_ne _ _ _ _ hd] at h; simp [lookup] at h
+
+private theorem getImage_payload_spec (f : Fetcher) (hx : Exclusive f) (c : Cache) (hc : PayloadConsistent f c)
+    (url forced : String) (o : Orientation) (opts : Opts) :
+    (getImage f opts c url forced o).value = cold f ⟨url, forced, o, opts⟩ ∧
+    (∀ dk p, lookup (coldResult f ⟨url, forced, o, opts⟩).cache dk = some (.bytes p) →
+      lookup (getImage f opts c url forced o).cache dk = some (.bytes p)) ∧
+    PayloadConsistent f (getImage f opts c url forced o).cache := by
+  cases hl : lookup c (keyStr url o opts) with
+  | some e =>
+    have hv : getImage f opts c url forced o = ⟨.ok e, c, []⟩ := by simp [getImage, hl]
+    rw [hv]
+    exact ⟨((hc url o opts e hl forced).1).symm, (hc url o opts e hl forced).2, hc⟩
+  | none =>
+    -- whatever is inserted at this request's own keys leaves the other requests' entries alone
+    have hother : ∀ (c' : Cache) (v : Entry),
+        (c' = c ∨ ∃ p, c' = insert c (dataKey (imageId (keyStr url o opts)) opts.dpi) (.bytes p)) →
+        ∀ url' o' opts' e, keyStr url o opts ≠ keyStr url' o' opts' →
+          lookup (insert c' (keyStr url o opts) v) (keyStr url' o' opts') = some e → ∀ forced',
+          cold f ⟨url', forced', o', opts'⟩ = .ok e ∧
+          ∀ dk p, lookup (coldResult f ⟨url', forced', o', opts'⟩).cache dk = some (.bytes p) →
+            lookup (insert c' (keyStr url o opts) v) dk = some (.bytes p) := by
+      intro c' v hc' url' o' opts' e hk he forced'
+      rw [lookup_insert_ne _ _ _ _ hk] at he
+      have he' : lookup c (keyStr url' o' opts') = some e := by
+        rcases hc' with rfl | ⟨p, rfl⟩
+        · exact he
+        · rwa [lookup_insert_ne _ _ _ _ (dataKey_ne_keyStr _ _ _ _ _)] at he
+      obtain ⟨h1, h2⟩ := hc url' o' opts' e he' forced'
+      refine ⟨h1, ?_⟩
+      intro dk p hdk
+      have hform := cold_bytes_key f ⟨url', forced', o', opts'⟩ dk p hdk
+      have hin := h2 dk p hdk
+      have hne1 : keyStr url o opts ≠ dk := by
+        intro e1; rw [← e1, hl] at hin; cases hin
+      rw [lookup_insert_ne _ _ _ _ hne1]
+      rcases hc' with rfl | ⟨q, rfl⟩
+      · exact hin
+      · have hne2 : dataKey (imageId (keyStr url o opts)) opts.dpi ≠ dk := by
+          intro e2
+          rw [hform] at e2
+          exact hk (dataKey_injective _ _ _ _ e2)
+        rw [lookup_insert_ne _ _ _ _ hne2]; exact hin
+    cases hf : f url with
+    | raises =>
+      have hv : getImage f opts c url forced o =
+          ⟨.ok (.image none), insert c (keyStr url o opts) (.image none), [url]⟩ := by simp [getImage, hl, hf]
+      have hcold : ∀ forced', coldResult f ⟨url, forced', o, opts⟩ =
+          ⟨.ok (.image none), insert [] (keyStr url o opts) (.image none), [url]⟩ := by
+        intro forced'; simp [coldResult, getImage, lookup, hf]
+      have hnob : ∀ forced' dk p, lookup (coldResult f ⟨url, forced', o, opts⟩).cache dk = some (.bytes p) → False := by
+        intro forced' dk p h
+        rw [hcold] at h
+        simp only [ImageCache.insert, lookup] at h
+        split at h <;> cases h
+      rw [hv]
+      refine ⟨by simp [cold, hcold], fun dk p h => (hnob forced dk p h).elim, ?_⟩
+      intro url' o' opts' e he forced'
+      by_cases hk : keyStr url o opts = keyStr url' o' opts'
+      · obtain ⟨hu, ho, hp⟩ := key_injective _ _ _ _ _ _ hk
+        subst hu; subst ho; subst hp
+        rw [lookup_insert_same] at he; cases he
+        exact ⟨by simp [cold, hcold], fun dk p h => (hnob forced' dk p h).elim⟩
+      · exact hother c _ (Or.inl rfl) url' o' opts' e hk he forced'
+    | malformed =>
+      have hv : getImage f opts c url forced o =
+          ⟨.error (.indexError "KeyError:result['file_obj']"), c, [url]⟩ := by simp [getImage, hl, hf]
+      have hcold : coldResult f ⟨url, forced, o, opts⟩ =
+          ⟨.error (.indexError "KeyError:result['file_obj']"), [], [url]⟩ := by
+        simp [coldResult, getImage, lookup, hf]
+      rw [hv]
+      refine ⟨by simp [cold, hcold], ?_, hc⟩
+      intro dk p h; rw [hcold] at h; simp [lookup] at h
+    | ok mime file blob =>
+      have hxb := hx url mime file blob hf
+      have hv : getImage f opts c url forced o =
+          ⟨.ok (.image (decode opts c url (keyStr url o opts) forced mime file blob o).1),
+           insert (decode opts c url (keyStr url o opts) forced mime file blob o).2 (keyStr url o opts)
+             (.image (decode opts c url (keyStr url o opts) forced mime file blob o).1), [url]⟩ := by
+        simp [getImage, hl, hf]
+      have hcold : ∀ forced', coldResult f ⟨url, forced', o, opts⟩ =
+          ⟨.ok (.image (decode opts [] url (keyStr url o opts) forced mime file blob o).1),
+           insert (decode opts [] url (keyStr url o opts) forced mime file blob o).2 (keyStr url o opts)
+             (.image (decode opts [] url (keyStr url o opts) forced mime file blob o).1), [url]⟩ := by
+        intro forced'
+        simp only [coldResult, getImage, lookup, hf]
+        rw [decode_forced opts [] url (keyStr url o opts) forced' forced mime file blob o hxb]
+      obtain ⟨d1, d2⟩ := decode_value opts c url (keyStr url o opts) forced forced mime file blob o hxb
+      have hval : ∀ forced', cold f ⟨url, forced', o, opts⟩ =
+          .ok (.image (decode opts c url (keyStr url o opts) forced mime file blob o).1) := by
+        intro forced'; simp only [cold, hcold forced', d1]
+      -- the cold call's bytes are in the warm cache after the call
+      have hbytes : ∀ forced' dk p, lookup (coldResult f ⟨url, forced', o, opts⟩).cache dk = some (.bytes p) →
+          lookup (insert (decode opts c url (keyStr url o opts) forced mime file blob o).2 (keyStr url o opts)
+            (.image (decode opts c url (keyStr url o opts) forced mime file blob o).1)) dk = some (.bytes p) := by
+        intro forced' dk p h
+        rw [hcold forced'] at h
+        simp only at h
+        have hne : keyStr url o opts ≠ dk := by
+          intro e1; subst e1; rw [lookup_insert_same] at h; cases h
+        rw [lookup_insert_ne _ _ _ _ hne] at h ⊢
+        rcases decode_cache_uniform opts url (keyStr url o opts) forced mime file blob o with hu | ⟨q, hu⟩
+        · rw [hu] at h; simp [lookup] at h
+        · rw [hu] at h ⊢
+          by_cases hd : dataKey (imageId (keyStr url o opts)) opts.dpi = dk
+          · subst hd
+            rw [lookup_insert_same] at h ⊢; exact h
+          · rw [lookup_insert_ne _ _ _ _ hd] at h; simp [lookup] at h
+      rw [hv]
+      refine ⟨(hval forced).symm, hbytes forced, ?_⟩
+      intro url' o' opts' e he forced'
+      by_cases hk : keyStr url o opts = keyStr url' o' opts'
+      · obtain ⟨hu, ho, hp⟩ := key_injective _ _ _ _ _ _ hk
+        subst hu; subst ho; subst hp
+        simp only at he
+        rw [lookup_insert_same] at he; cases he
+        exact ⟨hval forced', hbytes forced'⟩
+      · exact hother _ _ d2 url' o' opts' e hk he forced'
+
+/-- **payload_transparent** (new with bca20a5; the statement the former witness `cache_ignores_options` refuted): for
+every history of `get_image_from_uri` calls sharing a cache — whatever the orientations, forced MIME types and **image
+options of each call** — every call returns the cold value, and right after it the cache holds, under the data key
+of the returned image, exactly the bytes a cold call stores there: no render is served image data encoded for another
+render's options. -/
+theorem payload_transparent (f : Fetcher) (hx : Exclusive f) (c : Cache) (hc : PayloadConsistent f c)
+    (calls : List Call) :
+    ∀ rc ∈ (runCalls f c calls).zip calls,
+      rc.1.value = cold f rc.2 ∧
+      ∀ dk p, lookup (coldResult f rc.2).cache dk = some (.bytes p) → lookup rc.1.cache dk = some (.bytes p) := by
+  induction calls generalizing c with
+  | nil => intro rc h; simp [runCalls] at h
+  | cons call rest ih =>
+    obtain ⟨h1, h2, h3⟩ := getImage_payload_spec f hx c hc call.url call.forced call.orientation call.opts
+    intro rc h
+    simp only [runCalls, List.zip_cons_cons, List.mem_cons] at h
+    rcases h with h | h
+    · subst h; exact ⟨h1, h2⟩
+    · exact ih _ h3 rc h
+
+/-- … and this stays so for the rest of the history: after every call, every image the cache holds (of this call or
+of any earlier one, under any options) is the cold value of its request and still has its cold bytes — a later render
+with other options never replaces them. -/
+theorem payload_consistent_history (f : Fetcher) (hx : Exclusive f) (c : Cache) (hc : PayloadConsistent f c)
+    (calls : List Call) : ∀ r ∈ runCalls f c calls, PayloadConsistent f r.cache := by
+  induction calls generalizing c with
+  | nil => intro r h; simp [runCalls] at h
+  | cons call rest ih =>
+    obtain ⟨_, _, h3⟩ := getImage_payload_spec f hx c hc call.url call.forced call.orientation call.opts
+    intro r h
+    simp only [runCalls, List.mem_cons] at h
+    rcases h with h | h
+    · subst h; exact h3
+    · exact ih _ h3 r h
+
+/-- Non-vacuity of `payload_transparent`: JPEG requests with three different option sets sharing one cache — each
+image's data key holds the bytes of its own options (original / quality 5 / optimised re-encoding). -/
+example :
+    let fetcher : Fetcher := fun _ => .ok (some "image/jpeg") none ⟨1, false, some ⟨.jpeg, false⟩⟩
+    let calls : List Call := [⟨"u", "", .none, ⟨false, some 5, none⟩⟩, ⟨"u", "", .none, ⟨false, none, none⟩⟩,
+      ⟨"u", "", .none, ⟨true, none, none⟩⟩, ⟨"u", "", .none, ⟨false, some 5, none⟩⟩]
+    (runCalls fetcher [] calls).map (fun r =>
+      (r.fetched, calls.map (fun call => lookup r.cache
+        (dataKey (imageId (keyStr call.url call.orientation call.opts)) call.opts.dpi)))) =
+      [(["u"], [some (.bytes (.reenc 1 .none .jpeg false (some 5))), none, none,
+                some (.bytes (.reenc 1 .none .jpeg false (some 5)))]),
+       (["u"], [some (.bytes (.reenc 1 .none .jpeg false (some 5))), some (.bytes (.orig 1)), none,
+                some (.bytes (.reenc 1 .none .jpeg false (some 5)))]),
+       (["u"], [some (.bytes (.reenc 1 .none .jpeg false (some 5))), some (.bytes (.orig 1)),
+                some (.bytes (.reenc 1 .none .jpeg true none)), some (.bytes (.reenc 1 .none .jpeg false (some 5)))]),
+       ([], [some (.bytes (.reenc 1 .none .jpeg false (some 5))), some (.bytes (.orig 1)),
+             some (.bytes (.reenc 1 .none .jpeg true none)), some (.bytes (.reenc 1 .none .jpeg false (some 5)))])] := by
+  decide
+
+/-- A fetcher / history on which the hypotheses hold and the cache is really used — with options that change between
+the calls (the same URL under other options is fetched again; the same request is a hit). -/
 example : Exclusive (fun _ => Fetched.ok (some "image/png") none ⟨1, false, some ⟨.png, false⟩⟩) ∧
-    ((runCalls (fun _ => Fetched.ok (some "image/png") none ⟨1, false, some ⟨.png, false⟩⟩) ⟨false, none, none⟩ []
-      [⟨"u", "", .none⟩, ⟨"u", "", .angle .q90 false⟩, ⟨"u", "", .none⟩]).map (·.fetched)) = [["u"], ["u"], []] := by
+    ((runCalls (fun _ => Fetched.ok (some "image/png") none ⟨1, false, some ⟨.png, false⟩⟩) []
+      [⟨"u", "", .none, ⟨false, none, none⟩⟩, ⟨"u", "", .angle .q90 false, ⟨false, none, none⟩⟩,
+       ⟨"u", "", .none, ⟨true, some 5, none⟩⟩, ⟨"u", "", .none, ⟨false, none, none⟩⟩]).map (·.fetched)) =
+      [["u"], ["u"], ["u"], []] := by
   refine ⟨?_, by decide⟩
   intro url mime file blob h
   cases h
   simp
+
+/-- Regression example for the repaired `image-cache-ignores-options` (the input of the former witness
+`cache_ignores_options`): a cache filled by a render with `jpeg_quality=5` no longer serves its quality-5 re-encoding
+to a render with default options — the second call fetches again, and the bytes stored for its image are the original
+JPEG bytes, as on a cold cache; the quality-5 bytes stay under their own key. -/
+example :
+    let fetcher : Fetcher := fun _ => .ok (some "image/jpeg") none ⟨1, false, some ⟨.jpeg, false⟩⟩
+    let low : Opts := ⟨false, some 5, none⟩
+    let dflt : Opts := ⟨false, none, none⟩
+    let warm := (getImage fetcher low [] "u" "" .none).cache
+    let k := dataKey (imageId (keyStr "u" .none dflt)) none
+    (getImage fetcher dflt warm "u" "" .none).fetched = ["u"] ∧
+    lookup (getImage fetcher dflt warm "u" "" .none).cache k = some (.bytes (.orig 1)) ∧
+    lookup (getImage fetcher dflt [] "u" "" .none).cache k = some (.bytes (.orig 1)) ∧
+    lookup (getImage fetcher dflt warm "u" "" .none).cache (dataKey (imageId (keyStr "u" .none low)) none) =
+      some (.bytes (.reenc 1 .none .jpeg false (some 5))) := by
+  decide
 
 end cache
 
